@@ -322,6 +322,63 @@ dict_fam!(c01_dict_n1, quick, 4, 1, 0);
 dict_fam!(c01_dict_n2, thorough, 5, 2, 0);
 dict_fam!(c01_dict_n3, thorough, 6, 3, 0);
 
+/// Near-duplicate shape: a concrete 17-byte record, then the same record again with ONE symbolic byte
+/// in the middle (index P of the copy), so the match finder sees a long match that may or may not be
+/// interrupted by an isolated differing byte surrounded by equal bytes.
+fn dict_near_dup<const P: usize>() {
+    const REC: [u8; 17] = *b"record-0001:abcd;";
+    let mut data = [0u8; 34];
+    let mut i = 0;
+    while i < 17 {
+        data[i] = REC[i];
+        data[17 + i] = REC[i];
+        i += 1;
+    }
+    data[17 + P] = vany();
+    let c = DictionaryCompressor::new(Dictionary::new());
+    let e = c.compress(&data);
+    let enc = match &e {
+        Ok(v) => v,
+        Err(_) => panic!("compress failed"),
+    };
+    let d = c.decompress(enc);
+    match &d {
+        Ok(out) => {
+            assert!(out.len() == 34, "decompressed length differs");
+            let mut j = 0;
+            while j < 34 {
+                assert!(out[j] == data[j], "decompressed byte differs");
+                j += 1;
+            }
+        }
+        Err(_) => panic!("decompress refused the compressor's output"),
+    }
+    zcover!(data[17 + P] != REC[P], "the copy differs from the record in that byte");
+    zcover!(data[17 + P] == REC[P], "exact repeat");
+    forget(d);
+    forget(e);
+    forget(c);
+}
+macro_rules! dict_near_dup_fam {
+    ($name:ident, $tier:ident, $unwind:literal, $p:literal) => {
+        zv_harness! {
+            name: $name,
+            prop: "C01",
+            tier: $tier,
+            unwind: $unwind,
+            stubs: [alloc::fmt::format => crate::common::stubs::fmt_format,
+                    std::hash::RandomState::new => crate::c01_entropy::random_state_fixed],
+            targets: "DictionaryCompressor::{new,compress,decompress}: match search and match-length extension over a near-duplicate, back-reference emission and copy",
+            bounds: "the 34-byte input \"record-0001:abcd;\" twice, with byte P of the second copy (instance arg) replaced by an arbitrary byte",
+            oracle: "compress Ok; decompress(compress(x)) == x byte for byte",
+            body: { dict_near_dup::<$p>() }
+        }
+    };
+}
+dict_near_dup_fam!(c01_dict_near_dup_p12, probe, 40, 12);
+dict_near_dup_fam!(c01_dict_near_dup_p3, probe, 40, 3);
+dict_near_dup_fam!(c01_dict_near_dup_p16, probe, 40, 16);
+
 /// Decoder half of the back-reference mechanism (the encoder's match path needs >= 11 payload
 /// bytes and is out of reach): a stream of LIT literals followed by one match (offset OFF, length
 /// LEN, both concrete per instance, including the overlapping case LEN > OFF) must decode to the
